@@ -122,3 +122,48 @@ def print_pow_contract():
 
     return Contract("ESRPrinter._print_Pow", {"self": mk_self, "expr": T.fn, "rational": (T("conc", VBool(False)),)},
                     requires=requires, ensures=ensures, setup=setup, raises=lambda S, a, e: z3.BoolVal(False))
+
+
+# ------------------------------------------------------------ ESRPrinter.parenthesize itself (the contract _print_Pow relies on)
+PRECF = z3.Function("precedence", Fn, z3.IntSort())
+TIGHTEQ = z3.Function("binds.at.least", Label, z3.IntSort(), z3.BoolSort())
+
+
+def parenthesize_contract(strict):
+    """parenthesize(item, level, strict): the string denotes the item and binds strictly tighter than `level` (strict=False; at least as
+    tight for strict=True).  Assumed about the recursive _print (A-sympy printing convention): the string printed for an expression binds
+    as tight as sympy's precedence of that expression; about the reader: "(" s ")" denotes what s denotes and binds tighter than anything."""
+    def print_contract():
+        def ensures(S, a, res):
+            L = z3.Int("L!pc")
+            e = a["expr"].t
+            return [("den(result) = SEM(expr)", DEN(res.t) == SEM(e)),
+                    ("the printed string binds as tight as the expression's precedence",
+                     z3.ForAll([L], z3.And(z3.Implies(PRECF(e) > L, TIGHTER(res.t, L)), z3.Implies(PRECF(e) >= L, TIGHTEQ(res.t, L))), patterns=[TIGHTER(res.t, L)])),
+                    ("... (at least as tight)", z3.ForAll([L], z3.Implies(PRECF(e) >= L, TIGHTEQ(res.t, L)), patterns=[TIGHTEQ(res.t, L)]))]
+        return Contract("ESRPrinter._print", {"self": T.fn, "expr": T.fn}, ensures=ensures, returns=T.label)
+
+    def mk_self(eng, st):
+        return st.alloc(HObj("ESRPrinter", {"printmethod": VStr("_sympystr")}))
+
+    def setup(eng, st, args):
+        eng.contracts["ESRPrinter._print"] = print_contract()
+        eng.models["precedence"] = lambda e, s, a, k, n: VInt(PRECF(a[0].t))
+        par = eng.label_fn("fmt:(%s)", Label)
+        s_, L = z3.Const("s!ax", Label), z3.Int("L!ax")
+        eng.axioms.append(z3.ForAll([s_], DEN(par(s_)) == DEN(s_), patterns=[par(s_)]))
+        eng.axioms.append(z3.ForAll([s_, L], z3.And(TIGHTER(par(s_), L), TIGHTEQ(par(s_), L)), patterns=[TIGHTER(par(s_), L)]))
+        eng.axioms.append(z3.ForAll([s_, L], TIGHTEQ(par(s_), L), patterns=[TIGHTEQ(par(s_), L)]))
+
+    def ensures(S, a, res):
+        if not isinstance(res, VLabel):
+            return [("returns a string", z3.BoolVal(False))]
+        out = [("den(result) = SEM(item)", DEN(res.t) == SEM(a["item"].t))]
+        if strict:
+            out.append(("binds at least as tight as level (strict=True)", TIGHTEQ(res.t, a["level"].t)))
+        else:
+            out.append(("binds strictly tighter than level (strict=False)", TIGHTER(res.t, a["level"].t)))
+        return out
+
+    return Contract("ESRPrinter.parenthesize", {"self": mk_self, "item": T.fn, "level": T.int, "strict": lambda e, s: VBool(strict)},
+                    ensures=ensures, setup=setup, raises=lambda S, a, e: z3.BoolVal(False))
